@@ -31,7 +31,7 @@ var realGrid = []float64{
 
 var textGrid = []string{
 	"", "a", "A", "abc", "ABC", "Abc", "abc ", "abc  ", "abc\t", "abc\n", "ABC ", "ab", "abd", "abcd", "b", "B",
-	" abc", "é", "É", "éa", "ea", "z", "Z", "[", "@", "`", "{", "a\x00b", "a\x00", "\x00",
+	" abc", "é", "É", "éa", "ea", "z", "Z", "[", "@", "`", "{", "a\x00b", "a\x00", "\x00", "a\x00z", "A\x00c", "a\x00bb", "\x00\x00",
 	"12", "12abc", "1e3", " 12", "-7", "3.5", "010", "-0755", "007", "00", "0x10", "12 ", "+5", "9223372036854775808", "1.0", ".5", "5.",
 	"2006-01-02 15:04:05", "2006-01-02 15:04:05.123", "2006-01-02", "not a time",
 	"2020-01-02 03:04:05.6", "2020-01-02 03:04:05.678901", "2020-01-02 03:04:05.123456789", "2020-01-02T03:04:05Z", "2020-01-02 03:04", "2020-13-02 03:04:05", "2020-01-02 03:04:05 ",
